@@ -959,8 +959,8 @@ V("C14-set_value-reads-env", "C14", "assignment consults the environment", CORE,
   "            try:\n                if isinstance(field.env, str) and os.environ.get(field.env):\n                    value = os.environ.get(field.env)\n                value = field.validate(self, value)\n                field.__setval__(self, value)",
   expect_rule="env-read.sites")
 V("C14-validate-reads-env", "C14", "StringField._validate substitutes a variable", STR,
-  "        if not isinstance(value, str):\n            raise ValueError(\"value must be a string, not a %s\" % type(value).__name__)\n\n        if self.transform_strip:",
-  "        if not isinstance(value, str):\n            raise ValueError(\"value must be a string, not a %s\" % type(value).__name__)\n        import os\n        value = os.environ.get(\"OVERRIDE_\" + self._key.upper()) or value\n\n        if self.transform_strip:",
+  "        if not isinstance(value, str):\n            raise ValueError(\"value must be a string, not a %s\" % type(value).__name__)\n\n",
+  "        if not isinstance(value, str):\n            raise ValueError(\"value must be a string, not a %s\" % type(value).__name__)\n        import os\n        value = os.environ.get(\"OVERRIDE_\" + self._key.upper()) or value\n\n",
   expect_rule="env-read.sites")
 V("C14-bytes-setdefault-no-env", "C14", "a new __setdefault__ override (BytesField) bypasses the env route", BYTES,
   "    def _validate(self, cfg: Config, value: Any) -> bytes:\n        if isinstance(value, str):",
@@ -1539,3 +1539,7 @@ VP("C02-R4C-mut-table-int-before-bool", "C04", "scalar type table lists int befo
    '    SCALAR_TYPES = ((str, "str"), (bool, "bool"), (int, "int"), (float, "float"))', '    SCALAR_TYPES = ((str, "str"), (int, "int"), (bool, "bool"), (float, "float"))')
 VP("C07-R4D-mut-guarded-decrement-wrong-test", "C07", "guarded decrement skips the decrement while a context is open", "C07-R4D", ENC,
    "        if self.__refcount > 0:\n            self.__refcount -= 1", "        if self.__refcount > 1:\n            self.__refcount -= 1")
+
+V("C05-strip-before-case-again", "C05", "D27 re-opened: strip before the case transform", STR,
+  "        if self.transform_case:\n            value = value.lower() if self.transform_case == \"lower\" else value.upper()\n\n        if self.transform_strip:\n            if isinstance(self.transform_strip, str):\n                value = value.strip(self.transform_strip)\n            else:\n                value = value.strip()\n",
+  "        if self.transform_strip:\n            if isinstance(self.transform_strip, str):\n                value = value.strip(self.transform_strip)\n            else:\n                value = value.strip()\n\n        if self.transform_case:\n            value = value.lower() if self.transform_case == \"lower\" else value.upper()\n")
